@@ -39,7 +39,9 @@ def run_moves(res, ast, rules=("PROBE-DIR", "UNSAFE-TWIN", "WIN-ENTRY", "BC-BRAN
     if "BC-BRANCH" in rules:
         res.rule("BC-BRANCH", "brz branches iff the condition cell is zero, brnz iff it is non-zero; the untaken side falls "
                  "through to the next op", floor=2, what="branch ops")
-    # ---- movers
+    # ---- movers (structural patterns: independent of local names and formatting)
+    import pm
+    MOVE = "if SAFE { __v_mem = __v_chk(__v_cxt, __v_mem.wrapping_offset(__v_shift)); } else { __v_mem = __v_mem.offset(__v_shift); }"
     for name, chk, looped in (("scanl", "checkl", True), ("scanr", "checkr", True), ("movl", "checkl", False), ("movr", "checkr", False)):
         try:
             fn = ast.fn(OPS, name)["node"]
@@ -49,59 +51,24 @@ def run_moves(res, ast, rules=("PROBE-DIR", "UNSAFE-TWIN", "WIN-ENTRY", "BC-BRAN
                     res.missing(r, m)
             continue
         w = where(OPS, fn, name)
-        body = fn["body"]
-        st = body["stmts"]
-        lets = {l["pat"]["name"]: T(ast, OPS, l["init"]) for l in st if l["t"] == "Local" and l["pat"]["t"] == "PIdent" and l["init"] is not None}
-        shift_word = 2 if looped else 1
-        errs_twin, errs_dir = [], []
-        if lets.get("shift") != f"(*ip.add({shift_word})).off":
-            errs_twin.append(f"`shift` is not word {shift_word} of the op")
-        if looped and lets.get("cond") != "(*ip.add(1)).off":
-            errs_twin.append("`cond` is not word 1 of the op")
-        ctl = [s["expr"] for s in st if s["t"] == "ExprStmt" and s["expr"]["t"] in ("While", "If", "Loop", "ForLoop")]
-        mover = None
+        ps = [p["pat"]["name"] for p in fn["sig"]["inputs"] if p["t"] == "Arg" and p["pat"]["t"] == "PIdent"]
+        env0 = {"__v_cxt": ps[0], "__v_mem": ps[1], "__v_ip": ps[2], "__v_r0": ps[3], "__v_r1": ps[4]} if len(ps) == 5 else {}
         if looped:
-            if len(ctl) != 1 or ctl[0]["t"] != "While":
-                errs_twin.append("the op is not a single `while` around the move (checked and unchecked variants must share the loop)")
-            else:
-                c = T(ast, OPS, ctl[0]["cond"])
-                if c != "*mem.offset(cond)!=C::ZERO":
-                    errs_twin.append(f"loop condition is `{c}`, expected `*mem.offset(cond) != C::ZERO` tested before every move")
-                inner = ctl[0]["body"]["stmts"]
-                if len(inner) == 1 and inner[0]["t"] == "ExprStmt" and inner[0]["expr"]["t"] == "If":
-                    mover = inner[0]["expr"]
-                else:
-                    errs_twin.append("loop body is not the single `if SAFE { probe } else { move }`")
+            pat = ("let __v_cond = (*__v_ip.add(1)).off; let __v_shift = (*__v_ip.add(2)).off; "
+                   "while *__v_mem.offset(__v_cond) != C::ZERO { " + MOVE + " } noop(__v_cxt, __v_mem, __v_ip.add(3), __v_r0, __v_r1)")
         else:
-            if len(ctl) != 1 or ctl[0]["t"] != "If":
-                errs_twin.append("the op is not a single `if SAFE { probe } else { move }`")
-            else:
-                mover = ctl[0]
-        if mover is not None:
-            if T(ast, OPS, mover["cond"]) != "SAFE" or mover["else"] is None:
-                errs_twin.append("the probe is not selected by `if SAFE {..} else {..}`")
-            else:
-                t1 = T(ast, OPS, mover["then"])
-                t2 = T(ast, OPS, mover["else"])
-                want_unsafe = "{mem=mem.offset(shift);}"
-                if t2 != want_unsafe:
-                    errs_twin.append(f"unchecked branch is `{t2}`, expected `{want_unsafe}`")
-                okp = False
-                for c in ("checkl", "checkr"):
-                    if t1 == "{mem=%s(cxt,mem.wrapping_offset(shift));}" % c:
-                        okp = True
-                        if c != chk:
-                            errs_dir.append(f"{name} moves {'left' if chk == 'checkl' else 'right'} but probes with {c}")
-                if not okp:
-                    errs_dir.append(f"checked branch is `{t1}`, expected `mem = {chk}(cxt, mem.wrapping_offset(shift));` (probe of the moved pointer, result kept)")
-        # nothing else assigns mem
-        others = [a for a in walk_t(body, "Assign") if path_name(a["left"]) == "mem" and (mover is None or not any(x is a for x in walk(mover)))]
-        if others:
-            errs_twin.append("the tape pointer is assigned outside the SAFE/!SAFE pair")
+            pat = "let __v_shift = (*__v_ip.add(1)).off; " + MOVE + " noop(__v_cxt, __v_mem, __v_ip.add(2), __v_r0, __v_r1)"
+        b_ = pm.match_stmts(fn["body"]["stmts"], pat, env0)
         if "UNSAFE-TWIN" in rules:
-            res.check(not errs_twin, "UNSAFE-TWIN", f"{OPS}|{name}|twin", w, f"{name}: " + "; ".join(errs_twin))
+            res.check(b_ is not None, "UNSAFE-TWIN", f"{OPS}|{name}|twin", w,
+                      f"{name} is not the checked/unchecked twin template: operand words read into locals, then "
+                      + ("one `while *mem.offset(cond) != C::ZERO` around " if looped else "")
+                      + "`if SAFE { mem = check?(cxt, mem.wrapping_offset(shift)) } else { mem = mem.offset(shift) }`, then the continuation "
+                      "(the unchecked variant must be the checked one minus the probe: same loop condition, same shift)")
         if "PROBE-DIR" in rules:
-            res.check(not errs_dir and not [e for e in errs_twin if "probe" in e], "PROBE-DIR", f"{OPS}|{name}|probe", w, f"{name}: " + "; ".join(errs_dir or errs_twin))
+            got = b_.get("__v_chk") if b_ else None
+            res.check(got == chk, "PROBE-DIR", f"{OPS}|{name}|probe", w,
+                      f"{name} moves {'left' if chk == 'checkl' else 'right'} but probes with {got}" if got else f"{name}: probe call not found (see UNSAFE-TWIN)")
     # ---- checkers
     for name, edge in (("checkl", "min_accessed"), ("checkr", "max_accessed")):
         try:
@@ -111,31 +78,23 @@ def run_moves(res, ast, rules=("PROBE-DIR", "UNSAFE-TWIN", "WIN-ENTRY", "BC-BRAN
                 res.missing("PROBE-DIR", m)
             continue
         w = where(OPS, fn, name)
-        st = fn["body"]["stmts"]
-        e = st[0]["expr"] if len(st) == 1 and st[0]["t"] == "ExprStmt" and st[0]["expr"]["t"] == "If" else None
-        ok = False
-        win = False
-        if e is not None:
-            c = T(ast, OPS, e["cond"], 300)
-            ok = c == f"!(*cxt).context.memory.check_ptr(mem.wrapping_offset((*cxt).{edge}))"
-            tt = T(ast, OPS, e["then"], 600)
-            win = ("(*cxt).context.memory.set_current_ptr(mem);" in tt
-                   and "(*cxt).context.memory.make_accessible((*cxt).min_accessed,(*cxt).max_accessed+1);" in tt
-                   and tt.rstrip("}").endswith("(*cxt).context.memory.current_ptr()")
-                   and tt.index("set_current_ptr") < tt.index("make_accessible") < tt.rindex("current_ptr()"))
-            ok = ok and e["else"] is not None and T(ast, OPS, e["else"]) == "{mem}"
+        pat = ("if !(*__v_cxt).context.memory.check_ptr(__v_mem.wrapping_offset((*__v_cxt).__v_edge)) { "
+               "(*__v_cxt).context.memory.set_current_ptr(__v_mem); "
+               "(*__v_cxt).context.memory.make_accessible((*__v_cxt).min_accessed, (*__v_cxt).max_accessed + 1); "
+               "(*__v_cxt).context.memory.current_ptr() } else { __v_mem }")
+        b_ = pm.match_stmts(fn["body"]["stmts"], pat)
         if "PROBE-DIR" in rules:
-            res.check(ok, "PROBE-DIR", f"{OPS}|{name}|edge", w, f"{name} must test `!check_ptr(mem.wrapping_offset((*cxt).{edge}))` and return `mem` unchanged on a hit")
+            res.check(b_ is not None and b_.get("__v_edge") == edge, "PROBE-DIR", f"{OPS}|{name}|edge", w,
+                      f"{name} must test `!check_ptr(mem.wrapping_offset((*cxt).{edge}))` and return `mem` unchanged on a hit; probes `{b_.get('__v_edge') if b_ else '?'}`")
         if "WIN-ENTRY" in rules:
-            res.check(win, "WIN-ENTRY", f"{OPS}|{name}|reestablish", w,
+            res.check(b_ is not None, "WIN-ENTRY", f"{OPS}|{name}|reestablish", w,
                       f"{name}: on a miss it must set_current_ptr(mem), make_accessible(min_accessed, max_accessed + 1) and return current_ptr()")
     # ---- entries
     if "WIN-ENTRY" in rules:
         try:
             fn = ast.fn(OPS, "enter_ops")["node"]
-            t = T(ast, OPS, fn["body"], 800)
-            res.check("(*cxt).context.memory.make_accessible((*cxt).min_accessed,(*cxt).max_accessed+1);" in t, "WIN-ENTRY",
-                      f"{OPS}|enter_ops", where(OPS, fn, "enter_ops"), "enter_ops must make [min_accessed, max_accessed] accessible before entering the ops")
+            hit = pm.find_expr(fn["body"], "(*__v_cxt).context.memory.make_accessible((*__v_cxt).min_accessed, (*__v_cxt).max_accessed + 1)")
+            res.check(len(hit) == 1, "WIN-ENTRY", f"{OPS}|enter_ops", where(OPS, fn, "enter_ops"), "enter_ops must make [min_accessed, max_accessed] accessible before entering the ops")
         except Missing as m:
             res.missing("WIN-ENTRY", m)
         for path, ty in ((BASEJIT, "BaseJitCompiler"), (LLVM, "LlvmJitCompiler")):
@@ -165,13 +124,9 @@ def run_moves(res, ast, rules=("PROBE-DIR", "UNSAFE-TWIN", "WIN-ENTRY", "BC-BRAN
             except Missing as m:
                 res.missing("BC-BRANCH", m)
                 continue
-            ifs = [s["expr"] for s in fn["body"]["stmts"] if s["t"] == "ExprStmt" and s["expr"]["t"] == "If"]
-            ok = False
-            if len(ifs) == 1 and ifs[0]["else"] is not None:
-                c = T(ast, OPS, ifs[0]["cond"])
-                thn = T(ast, OPS, ifs[0]["then"])
-                els = T(ast, OPS, ifs[0]["else"])
-                ok = c == f"*mem.offset(cond){op}C::ZERO" and "ip.offset(off)" in thn and "ip.add(3)" in els and "ip.offset" not in els
+            pat = ("let __v_cond = (*__v_ip.add(1)).off; if *__v_mem.offset(__v_cond) " + op + " C::ZERO { let __v_off = (*__v_ip.add(2)).off; "
+                   "noop(__v_cxt, __v_mem, __v_ip.offset(__v_off), __v_r0, __v_r1) } else { noop(__v_cxt, __v_mem, __v_ip.add(3), __v_r0, __v_r1) }")
+            ok = pm.match_stmts(fn["body"]["stmts"], pat) is not None
             res.check(ok, "BC-BRANCH", f"{OPS}|{name}|polarity", where(OPS, fn, name),
                       f"{name} must jump (ip.offset(off)) exactly when `*mem.offset(cond) {op} C::ZERO` and fall through to ip.add(3) otherwise")
 
